@@ -6,6 +6,7 @@
                               STest tag [B1; B2; ..]   for   if np.any(B1) or np.any(B2) ..: raise ValueError(<message of class tag>)
                               SRepair vs [G1; ..] f    for   if np.any(G1) or ..: <vector of vs> = <expression> ...
      src_lb_eff, src_ub_eff   the effective-bounds block (bounds_range, the 1e-3 margin, the realmin special case, infinities)
+     src_head : list hstmt    BADS.__init__ up to the call + the head of _bounds_check_, over the five OPTIONAL vectors
      src_check                := run_prog src_prog  (Model/BoundsSrc.v: the first failing test rejects with its tag; a repair
                               whose guard holds for SOME coordinate is applied to EVERY coordinate, at its position)
    A changed comparison, constant, operand, message class, a dropped / added / reordered test or repair changes these
@@ -63,23 +64,31 @@ Theorem C08_check_is_source :
 Proof. exact check_is_source. Qed.
 Print Assumptions C08_check_is_source.
 
-(* ... hence the model's constructor is the constructor around the generated program (the function the tie evaluates). *)
+(* THE HEAD: what BADS.__init__ does to the five OPTIONAL vectors before the call (plausible bounds default to the hard
+   ones, bads:UnknownDims, x0 = NaN row, D, infinite hard bounds) and what the head of _bounds_check_ does before its first
+   test (absent plausible bounds copied from the hard ones for N0 = 1, the shape test), translated into src_head and run by
+   Model/BoundsSrc.v's run_head: for EVERY definition it is [assemble].  (D = 0 -> ZeroDivisionError comes from the option
+   files evaluated right after self.D is set; that part of HDim's meaning is not translated, it is tied dynamically.) *)
+Theorem C08_assemble_is_source :
+  forall d : defn, head_view (assemble d) = run_head src_head (head_of_defn d).
+Proof. exact assemble_is_source. Qed.
+Print Assumptions C08_assemble_is_source.
+
+(* ... hence the model's constructor is the constructor around the two generated programs (the function the tie evaluates
+   on every generated definition against the real constructor). *)
 Theorem C08_construct_is_source :
-  forall d : defn, outcome_val (construct d) = construct_with src_prog d.
+  forall d : defn, outcome_val (construct d) = construct_with2 src_head src_prog d.
 Proof. exact construct_is_source. Qed.
 Print Assumptions C08_construct_is_source.
 
-(* Head, tail and caller, as data: _bounds_check_ takes and returns (x0, lb, ub, plb, pub) in this order; the shape test
-   covers the four bound vectors and precedes every test; an absent plausible bound is a copy of the hard bound (N0 = 1);
-   BADS.__init__'s statements on the five vectors, in order, are the ones [assemble] / [finish] of Model/BoundsCheck.v
-   implement (this last part is a canonical-text comparison: it pins the source, the reading is Model/BoundsCheck.v's
-   and is tied dynamically). *)
-Theorem C08_assembly_is_source :
-  model_arg_order = src_arg_order /\ model_arg_order = src_return_order /\
-  model_shape_checked = src_shape_checked /\ model_bc_defaults = src_bc_defaults /\
-  model_init_defaults = src_init_defaults.
-Proof. exact assembly_is_source. Qed.
-Print Assumptions C08_assembly_is_source.
+(* Caller and tail, as data: BADS.__init__ passes (x0.copy(), lb, ub, plb, pub) positionally and unpacks the result in the
+   same order, _bounds_check_ returns the five vectors in that order, and the only statement of __init__ on the vectors
+   after the check is the uniform draw of a non-finite x0 from [plb, pub] ([finish]; canonical text: this pins the source, the
+   reading is Model/BoundsCheck.v's and is tied dynamically). *)
+Theorem C08_call_is_source :
+  model_arg_order = src_arg_order /\ model_arg_order = src_return_order /\ model_post_check = src_post_check.
+Proof. exact call_is_source. Qed.
+Print Assumptions C08_call_is_source.
 
 (* Non-vacuity: on a D = 3 row (x0 ON an upper bound; an unbounded coordinate whose x0 = 7 lies outside its plausible
    box; plausible bounds equal to the hard ones) the generated program repairs all three coordinates and accepts; on a
